@@ -363,3 +363,45 @@ def check_C05(tier: str, seed: int) -> int:
         "distinct_nontrivial = distinct function-level shapes",
         ["exact rational arithmetic; comparisons of sums use tolerance 1e-9·scale",
          "partial: the history-level sum invariant is enforced by monitor, the Lean theorems are per charging step / per pickup"])
+
+
+TIMED_BUDGET = {"quick": 480, "thorough": 24000}
+
+
+@register("C11")
+def check_C11(tier: str, seed: int) -> int:
+    v = fw.Verdict("C11", tier, seed, "proof")
+    ps = fw.ProofStatus("C11", ["Properties.C11"])
+    tl = layers.timed_layer(seed, TIMED_BUDGET[tier])
+    ok1 = use_simple_layer(v, "C11", tl, "timed", ["C11"])
+    if (not ps.ok or not ok1) and not v.violations:
+        big = layers.timed_layer(seed + 7919, TIMED_BUDGET[tier] * 6)
+        use_simple_layer(v, "C11", big, "timed", ["C11"])
+        v.notes.append(f"escalated search: {big['cases']} further runs")
+    if not ps.ok:
+        v.broken(f"proof obligation for C11: {ps.failing_obligation()}", {"theorem_or_build": ps.failing_obligation()})
+    cov = fw.proof_coverage(ps)
+    cov["evaluations"] = tl["steps"]
+    cov["distinct_nontrivial"] = len(tl["shapes"])
+    cov["rule"] = ("function-level: generated request files (0-40 rows; bursts, identical timestamps, gaps, departures on / next to step boundaries, before the start and after "
+                   "the end; unparsable rows; fleet tags with and without a fleets file) and price tables (keys: station ids, the search cell, coarser and finer regions, junk and "
+                   "overflowing keys, cells without stations; tables omitting stations; unparsable prices; the built-in default table) written as CSV and read by the real "
+                   "ChargingPriceUpdate / UpdateRequestsFromFile / CancelRequests (their own build(), lazy and eager) over 3-24 pre-step phases with scripted pick-ups, start time in "
+                   "{0, 3600, 86340, 172793}, step length in {1,7,30,60,90,3600}, timeout in {0,1,dt-1,dt,dt+1,2dt,5dt+1,600}, search resolution in {7,9,11}; admissions, "
+                   "cancellations, request sets and all station prices compared with Hive.Timed.run after every step, and the closed-form statements (violRequests, violPrices, "
+                   "violClock) evaluated by Lean on the implementation's trace; evaluations = pre-step phases; distinct_nontrivial = distinct (lazy, fleets, #admitted, "
+                   "#cancelled, short timeout, rejected rows) and (default table, key column, key kinds, #distinct price states) tuples")
+    cov["samples"] = [tl["sample"]]
+    cov["runs"] = tl["cases"]
+    cov["rows"] = tl["rows"]
+    cov["trusted_base"] = cov["trusted_base"] + [
+        "what a price key names (station id, or the stations whose cell lies inside the H3 region) is computed by the harness from h3.h3_to_parent of the stations' own cells, "
+        "independently of the implementation's search index; it is a parameter (`names`) of the theorems",
+        "CSV parsing (csv.DictReader, SimTime.build, Request.from_row) is exercised by the correspondence runs, not modelled; a row is modelled by the Request it parses to"]
+    v.coverage = cov
+    v.assumptions = ["the request file is sorted by departure time and request ids are distinct (the statement's quantifier); unsorted files are covered only by reader_once",
+                     "the rest of a step only removes request ids (Hive.C03.requests_change_only_by) and advances the clock by dt (Rest)",
+                     "when two different keys of one update window name the same station and plug type, the greatest key prevails (the statement does not say which); "
+                     "the closed-form price monitor skips such windows, the model/implementation comparison does not",
+                     "malformed timestamps (SimTime.build fails) stop the run by design and are not generated"]
+    return v.finish()
